@@ -83,7 +83,7 @@ structure PrepOK (cfg : Cfg) (s : State) (p : Prepared) : Prop where
   range : ∃ (i : Nat) (c : Chunk), s.cur = .chunk i ∧ s.chunks[i]? = some c ∧ p.rstart ≤ p.rend ∧
     (if cfg.up then c.pos ≤ p.rstart ∧ p.rend ≤ c.contentEnd cfg
      else c.contentStart cfg ≤ p.rstart ∧ p.rend ≤ c.pos)
-  p2 : ∃ k, p.ealign = 2 ^ k
+  p2 : ∃ k, k < 64 ∧ p.ealign = 2 ^ k
   start_al : p.ealign ∣ p.rstart
   end_al : p.ealign ∣ p.rend
   typed : p.typed = true → 0 < p.esize ∧ p.ealign ∣ p.esize ∧ p.esize ∣ p.rend - p.rstart
@@ -105,6 +105,8 @@ structure Inv (cfg : Cfg) (g : GState) : Prop where
   /-- an unallocated arena has handed out nothing -/
   liveCur : g.s.cur = .unallocated → g.s.live = []
   ids : ∀ b ∈ g.s.live, b.id < g.s.nextId
+  /-- block alignments are alignments of Rust layouts -/
+  aligns : ∀ b ∈ g.s.live, ∃ k, k < 64 ∧ b.align = 2 ^ k
   frames : FramesOK cfg g.s g.s.minAlign g.s.frames g.marks
   marks : ∀ m ∈ g.marks, m ≤ g.s.nextId
   cps : ∀ x ∈ g.s.userCps, CpOK cfg g.s x.2.1 x.2.2
